@@ -409,7 +409,83 @@ func %s() {
 `, pc.name, name, call, pc.name != "ExecuteRulesWithSpecifiedEM")
 		fam.Instances = append(fam.Instances, Instance{Func: name, Stratum: "pool:" + pc.name, Desc: "result map handed out by pool." + pc.name, Expect: []string{"first call"}})
 	}
+	b.WriteString(`
+type loopBox struct{ I int64 }
+
+// a return of an injected field from inside a loop whose step changes that field: the entry is the value at the return
+func H_return_field_in_loop() {
+	k := vnd.Int64("k")
+	vnd.Assume(vnd.And(k >= 0, k <= 4))
+	box := &loopBox{}
+	dc := newDC(nil)
+	dc.Add("C", box)
+	dc.Add("k", k)
+	rb := buildText(dc, "rule \"loop\" begin\n for C.I = 0; C.I < 5; C.I += 1 {\n  if C.I == k {\n   return C.I\n  }\n }\nend\n")
+	for model := 0; model < 3; model++ {
+		eng := engine.NewGengine()
+		var err error
+		switch model {
+		case 0:
+			err = eng.Execute(rb, true)
+		case 1:
+			err = eng.ExecuteConcurrent(rb)
+		default:
+			err = eng.ExecuteSelectedRules(rb, []string{"loop"})
+		}
+		res, _ := eng.GetRulesResultMap()
+		x, ok := res["loop"].(int64)
+		vnd.Assert(err == nil && ok, "the rule returns")
+		vnd.Assert(x == k, "the entry is the value the return statement yielded")
+	}
+	vnd.Reach("first call")
+	vnd.Reach("second call")
+}
+
+// three calls in flight on a (1,3) pool, each selecting another rule: every caller gets exactly its own entry
+func P_three_overlapping_calls() {
+	apis := map[string]interface{}{"unused": int64(0)}
+	text := ""
+	for i := 0; i < 3; i++ {
+		n := itoa(i)
+		text += "rule \"r" + n + "\" salience " + n + " begin\n hold()\n return v\nend\n"
+	}
+	gp, e := engine.NewGenginePool(1, 3, engine.SortModel, text, apis)
+	must(e, "pool construction")
+	var barrier sync.WaitGroup
+	barrier.Add(3)
+	v := symVals("v", 3)
+	res := make([]map[string]interface{}, 3)
+	var wg sync.WaitGroup
+	for k := 0; k < 3; k++ {
+		k := k
+		wg.Add(1)
+		go func() {
+			defer wg.Done()
+			_, res[k] = gp.ExecuteSelectedRules(map[string]interface{}{"v": v[k], "hold": func() {
+				barrier.Done()
+				barrier.Wait() // every call is inside its rule before any returns
+			}}, []string{"r" + itoa(k)})
+		}()
+	}
+	wg.Wait()
+	vnd.Quiesce()
+	for k := 0; k < 3; k++ {
+		x, ok := res[k]["r"+itoa(k)].(int64)
+		vnd.Assert(ok && x == v[k], "the caller's own rule returned into the caller's map")
+		vnd.Assert(len(res[k]) == 1, "no foreign or stale entries")
+	}
+	vnd.Reach("first call")
+	vnd.Reach("second call")
+}
+`)
+	fam.Instances = append(fam.Instances, Instance{Func: "H_return_field_in_loop", Stratum: "nested:aliased-field", Desc: "return of an injected field that the loop step modifies", Expect: []string{"first call"}},
+		Instance{Func: "P_three_overlapping_calls", Stratum: "pool:overlap", Desc: "three overlapping pool calls on a (1,3) pool", Expect: []string{"first call"}, Nondet: true})
 	b.WriteString("\nfunc pick56(k int64) int64 {\n\tif k == 1 {\n\t\treturn 5\n\t}\n\treturn 6\n}\n")
 	finishFamily(fam, pkg, b.String())
+	for p, src := range fam.Files {
+		if strings.HasSuffix(p, "/c11/h.go") {
+			fam.Files[p] = strings.Replace(src, "import (", "import (\n\t\"sync\"\n", 1)
+		}
+	}
 	return fam, nil
 }
